@@ -1,4 +1,5 @@
 mod capture;
+mod cfgsuite;
 mod codec;
 mod gen_codec;
 mod gen;
@@ -32,6 +33,9 @@ fn run_cases(cases: &str, out: &str, dir: &str) {
             "send" => wsuite::run_send(&toks, &dir, &mut cap),
             "recv" => wsuite::run_recv(&toks, &dir, &mut cap),
             "win" => winsuite::run_win(&toks, &dir),
+            "cfg" => cfgsuite::run_cfg(&toks),
+            "cfgperm" => cfgsuite::run_cfgperm(&toks),
+            "ccfg" => cfgsuite::run_ccfg(&toks),
             "dec" => codec::run_dec(&toks),
             "enc" => codec::run_enc(&toks),
             "opc" => codec::run_opc(&toks),
